@@ -371,7 +371,7 @@ func C09(r *core.Run) {
 	r.Cov["distinct_nontrivial"] = tot.Files - tot.CheckOK
 	r.Cov["traces_validated_against_impl"] = validated
 	r.Cov["exhaustive"] = len(deaths) == 0
-	r.Cov["bound"] = map[string]any{"line_kinds": len(fmtLines), "lines_full_variants": spec.FullLen, "lines_two_variants": spec.MaxLen, "variants": "LF/CRLF x final newline yes/no x header absent/present/without blank line"}
+	r.Cov["bound"] = map[string]any{"line_kinds": len(fmtLines), "lines_full_variants": spec.FullLen, "lines_two_variants": spec.MaxLen, "variants": "LF/CRLF x final newline yes/no x header absent/present/without blank line/below an empty line/below a line of blanks"}
 	r.Cov["rule"] = "all files of <= n lines over the line-kind alphabet x variants (+ empty and white-space only files), each explored as a state machine x -> F(x) -> F(F(x)) -> F3(x) with --check at x and F(x) on the real processFile (in-process), states = file contents visited, transitions = format / check operations; non-trivial = files that --check does not accept as they are"
 	r.Cov["samples"] = []any{fmtFile([]string{"##!>assemble", "\tbar", "  ##!<"}, fmtVariant{true, false, 2}), fmtFile([]string{"##!+   s  ", "", "   "}, fmtVariant{false, true, 0})}
 	r.Assume = append(r.Assume, "layout clauses are evaluated only when format exits 0; trimming inside entries is not demanded; the implication 'fixpoint => --check succeeds' is not evaluated for files with an i flag and an upper-case class (the additional lint)")
